@@ -105,6 +105,24 @@ class RecTy(Ty):
 INT, BOOL, FLOAT, STR, NONE, ANY = IntTy(), BoolTy(), FloatTy(), StrTy(), NoneTy(), AnyTy()
 
 
+def name_quantifier(q: z3.ExprRef, name: str) -> z3.ExprRef:
+    """Attach a :qid to a top-level universal quantifier (for instantiation profiles)."""
+    try:
+        if not (z3.is_quantifier(q) and q.is_forall()) or q.num_patterns() == 0:
+            return q
+        n = q.num_vars()
+        vs = [z3.Const(q.var_name(k), q.var_sort(k)) for k in range(n)]
+        body = z3.substitute_vars(q.body(), *reversed(vs))
+        pats = []
+        for k in range(q.num_patterns()):
+            p = q.pattern(k)
+            terms = [z3.substitute_vars(p.arg(j), *reversed(vs)) for j in range(p.num_args())]
+            pats.append(z3.MultiPattern(*terms) if len(terms) > 1 else terms[0])
+        return z3.ForAll(vs, body, qid=name, patterns=pats)
+    except Exception:  # noqa: BLE001
+        return q
+
+
 class Prelude:
     """Holds declared sorts, function symbols and axioms of one VC session."""
 
@@ -128,7 +146,7 @@ class Prelude:
         return z3.Const(f"{base}!{self._fresh}", sort)
 
     def ax(self, name: str, f: z3.BoolRef) -> None:
-        self.axioms.append((name, f))
+        self.axioms.append((name, name_quantifier(f, name)))
 
     def func(self, name: str, *sig: z3.SortRef) -> z3.FuncDeclRef:
         if name not in self.fn:
@@ -293,7 +311,9 @@ class Prelude:
         A(f"{n}.count_unit", z3.ForAll([x, y], cnt(unit(y), x) == z3.If(x == y, 1, 0), patterns=[cnt(unit(y), x)]))
         A(f"{n}.count_app", z3.ForAll([s, t, x], cnt(app(s, t), x) == cnt(s, x) + cnt(t, x), patterns=[cnt(app(s, t), x)]))
         A(f"{n}.count_nonneg", z3.ForAll([s, x], cnt(s, x) >= 0, patterns=[cnt(s, x)]))
-        A(f"{n}.count_idx", z3.ForAll([s, i], z3.Implies(z3.And(0 <= i, i < ln(s)), cnt(s, idx(s, i)) >= 1), patterns=[idx(s, i)]))
+        # only for sequences whose multiplicities are being discussed (some count term on s exists)
+        A(f"{n}.count_idx", z3.ForAll([s, i, y], z3.Implies(z3.And(0 <= i, i < ln(s)), cnt(s, idx(s, i)) >= 1),
+                                      patterns=[z3.MultiPattern(idx(s, i), cnt(s, y))]))
 
     # ------------------------------------------------------------------ sets
     def setf(self, ty: SetTy, op: str) -> z3.FuncDeclRef:
